@@ -64,6 +64,7 @@ Definition fill_ff (p : bytes) (a b : N) : bytes := blit p a (repeatN 255 (b - a
 Definition stuffAF (p : bytes) : bytes := fill_ff p (stuffingStart p) (stuffingEnd p).
 
 Definition resizeAF (p : bytes) (start : N) (delta : Z) : Res bytes :=
+  if PacketSize <? stuffingStart p then Err E.InvalidPacketLength else   (* C05 guard *)
   match delta with
   | Z0 => Ok p
   | Zpos d' =>
@@ -172,6 +173,7 @@ Definition SetTransportPrivateData (p : bytes) (data : bytes) : Res bytes :=
 Definition TransportPrivateData (p : bytes) : Res bytes :=
   let? h := HasTransportPrivateData p in
   if negb h then Err E.NoPrivateTransportData else
+  if PacketSize <? adaptationExtensionStart p then Err E.InvalidPacketLength else   (* C05 guard *)
   slice p (transportPrivateDataStart p) (adaptationExtensionStart p).
 
 (* repaired (F5) *)
@@ -196,6 +198,7 @@ Definition SetAdaptationFieldExtension (p : bytes) (data : bytes) : Res bytes :=
 Definition AdaptationFieldExtension (p : bytes) : Res bytes :=
   let? h := HasAdaptationFieldExtension p in
   if negb h then Err E.NoAdaptationFieldExtension else
+  if PacketSize <? stuffingStart p then Err E.InvalidPacketLength else   (* C05 guard *)
   slice p (adaptationExtensionStart p) (stuffingStart p).
 
 (* modify.go: func (p *Packet) SetAdaptationField(af *AdaptationField) error *)
